@@ -9,3 +9,6 @@ import Resvg.Props.C10
 #print axioms Resvg.Props.C10.C10_switch_first
 #print axioms Resvg.Props.C10.C10_switch_none
 #print axioms Resvg.Props.C10.C10_a_is_g
+#print axioms Resvg.Props.C10.C10_own_group_once
+#print axioms Resvg.Props.C10.C10_nested_svg_effects_once
+#print axioms Resvg.Props.C10.C10_old_nested_svg_twice
